@@ -14,7 +14,10 @@
    (cg_X_write in cgnslib.c, cgi_read_X in cgns_internals.c); [post_ok] holds the cross-node validation the reader of
    that kind performs after it collected the children; [exec] maps an API call to the entities it creates (incl. the
    quirks: default Vertex location is not written, containers created on demand, ElementList -> PointList ...).
-   No proofs here (SidsCodecProofs.v).  64-bit build (cgsize_t = I8), file version = library version. *)
+   No proofs here (SidsCodecProofs.v).  64-bit build (cgsize_t = I8), file version = library version.
+   The only thing taken from the REGENERATED tables (Gen_C01.v) is [dts_loadable], the data types cgi_read_node allocates a
+   buffer for: the model follows the sources there (see [complex_array_refuted]).  The obligations over the regenerated
+   writer / reader tables are at the end of this file. *)
 From Coq Require Import ZArith List Bool Lia Ascii.
 From Coq Require String.
 Import String.StringSyntax.
